@@ -124,7 +124,7 @@ def run_one(job):
         env = dict(os.environ, PYTHONPATH=d, PYTHONDONTWRITEBYTECODE="1")
         try:
             t = subprocess.run([PY, "-m", "pytest", "-x", "-q", "-p", "no:cacheprovider", "--ignore", "tests/integration/test_fluidsynth.py", "tests"],
-                               env=env, cwd=d, capture_output=True, text=True, timeout=300)
+                               env=env, cwd=d, capture_output=True, text=True, timeout=90)
         except subprocess.TimeoutExpired:
             res["result"] = "killed-by-suite(timeout)"
             return res
